@@ -283,6 +283,8 @@ access(all) fun getFunction(): (fun(Int)) {
 }
 access(all) fun main(): fun(Int): Void { return getFunction() }`)
 
+var reproFF8 = script(`access(all) fun main(): Type? { return CompositeType("Foo") }`)
+
 // c34Findings lists the known root causes of engine divergence (narrow predicates:
 // feature/shape of the program + the pair of outcome classes and root error types).
 func c34Findings() []c34Finding {
@@ -292,6 +294,15 @@ func c34Findings() []c34Finding {
 		}},
 		{ID: "FR1", Repro: reproFR1, Match: func(h prog.History, pair string, d *Divergence, src string) bool {
 			return pair == "interpreter~vm" && strings.HasPrefix(d.Sig, "class internal/"+rootInvalidatedResource+" vs ") && memberIndexSwapUpTo(h, d.Step)
+		}},
+		{ID: "FR2", Repro: prog.History{}, Match: func(h prog.History, pair string, d *Divergence, src string) bool {
+			// interpreter-only atree validation failure (stale parent slab size); no small repro here, see findings_inbox/res.md
+			return pair == "interpreter~vm" && strings.HasPrefix(d.Sig, "class external/*atree.FatalError vs ") &&
+				strings.Contains(d.A, "header size") && strings.Contains(d.A, "is wrong")
+		}},
+		{ID: "FF8", Repro: reproFF8, Match: func(h prog.History, pair string, d *Divergence, src string) bool {
+			return pair == "interpreter~vm" && d.Sig == "class ok/ vs user/errors.DefaultUserError" && strings.Contains(d.B, "missing location") &&
+				(strings.Contains(src, "CompositeType(") || strings.Contains(src, "IntersectionType("))
 		}},
 		{ID: "FR3", Repro: reproFR3, Match: func(h prog.History, pair string, d *Divergence, src string) bool {
 			return pair == "interpreter~vm" && d.What == "events" && onlyDestroyEventOptionalBoxingDiffers(d.A, d.B)
